@@ -20,7 +20,6 @@ import (
 	"fmt"
 	"io"
 	"net/http"
-	"sort"
 	"strings"
 
 	"github.com/internetarchive/Zeno/internal/pkg/archiver"
@@ -51,6 +50,7 @@ type pipeObs struct {
 	assets, outlinks       []string
 	reqAssets, reqOutlinks [][2]*string
 	tree                   []string // URLs of the chain's items, seed first, the page's item last
+	mimeHTML               bool     // htmlarch: sniffed by the real archive()
 	err                    string
 }
 
@@ -117,63 +117,7 @@ func runPipeline(c *Case, body string) (o *pipeObs) {
 		outs = postprocessor.VerifC07Postprocess(seed)
 	}
 
-	// the children of the page: raw strings now, requests after the next preprocess()
-	type kid struct {
-		it  *models.Item
-		raw string
-	}
-	var kids []kid
-	for _, ch := range page.GetChildren() {
-		kids = append(kids, kid{ch, ch.GetURL().Raw})
-		o.assets = append(o.assets, ch.GetURL().Raw)
-	}
-	sort.Strings(o.assets)
-	if len(kids) > 0 {
-		if p := preprocessor.VerifScopePreprocess(seed); p != "" {
-			o.err = "preprocess (assets) panicked: " + p
-			return
-		}
-		alive := map[*models.Item]bool{}
-		for _, ch := range page.GetChildren() {
-			alive[ch] = true
-		}
-		got := map[string]*string{}
-		var order []string
-		for _, k := range kids {
-			if _, seen := got[k.raw]; !seen {
-				got[k.raw] = nil
-				order = append(order, k.raw)
-			}
-			if alive[k.it] && k.it.GetStatus() == models.ItemPreProcessed && k.it.GetURL().GetRequest() != nil {
-				u := k.it.GetURL().GetRequest().URL.String()
-				got[k.raw] = &u
-			}
-		}
-		sort.Strings(order)
-		for _, raw := range order {
-			raw := raw
-			o.reqAssets = append(o.reqAssets, [2]*string{&raw, got[raw]})
-		}
-	}
-
-	// the outlinks: each enters the next round as a seed of its own
-	seenOut := map[string]bool{}
-	for _, out := range outs {
-		raw := out.GetURL().Raw
-		o.outlinks = append(o.outlinks, raw)
-		if seenOut[raw] {
-			continue
-		}
-		seenOut[raw] = true
-		var req *string
-		if p := preprocessor.VerifScopePreprocess(out); p == "" && out.GetStatus() == models.ItemPreProcessed && out.GetURL().GetRequest() != nil {
-			u := out.GetURL().GetRequest().URL.String()
-			req = &u
-		}
-		o.reqOutlinks = append(o.reqOutlinks, [2]*string{&raw, req})
-	}
-	sort.Strings(o.outlinks)
-	sort.Slice(o.reqOutlinks, func(i, j int) bool { return *o.reqOutlinks[i][0] < *o.reqOutlinks[j][0] })
+	collectRequests(o, seed, page, outs)
 	return
 }
 
